@@ -231,10 +231,11 @@ def run_conv(pystog, case):
             return call_conv(pystog, case["space"], case["X"], case["Y"], case["x"], alt_y, alt_d if with_dy else None, case["mat"], cv=cv)
         return call_conv(pystog, case["space"], case["X"], case["Y"], case["x"], case["y"], case["dy"], case["mat"], idt, cv=cv,
                          callform=case.get("callform", "pos"), minimal=case.get("minimal_kw", False))
-    reuse.prime(call)
+    # first some calls that fail (the caller catches the error), then successful ones with other data, then the call under test
     x_ = np.linspace(0.5, 3.0, 6)
     reuse.provoke(cv, [(n_, a_, k_) for n_ in ("F_to_S", "S_to_FK", "FK_to_DCS", "G_to_g", "g_to_GK", "GK_to_G")
                        for a_, k_ in (((x_, np.ones(5)), kwargs_of(case["mat"])), ((x_, np.ones(6)), {}), ((x_, "n/a"), kwargs_of(case["mat"])))])
+    reuse.prime(call)
     v, e = call(False, None)
     res = {"val": None if v is None else [float(t) for t in np.asarray(v, dtype=float)],
            "err": None if e is None else [float(t) for t in np.asarray(e, dtype=float)]}
